@@ -106,7 +106,7 @@ func c34newWorld(byz uint32) *c34world {
 	if f == 1 || f == 2 {
 		// an equivocating proposer: a second proposal
 		w.propX = w.mkProposal(f, 0xC)
-		add("X:proposal'", "equivocating-proposal", w.propX)
+		add("X:proposal'", "second-proposal", w.propX)
 	}
 	targets := []*blockProposalMsg{w.props[1], w.props[2]}
 	if w.propX != nil {
@@ -120,7 +120,7 @@ func c34newWorld(byz uint32) *c34world {
 		}
 		bh := p.Block.Block.Hash()
 		// own, honest-form endorsement and commit
-		add("X:endorse("+tag+")", "", &blockEndorseMsg{Endorser: f, EndorsedProposer: pr, BlockNum: c34H, EndorsedBlockHash: bh, EndorserSig: sign(bh)})
+		add("X:endorse("+tag+")", "endorse", &blockEndorseMsg{Endorser: f, EndorsedProposer: pr, BlockNum: c34H, EndorsedBlockHash: bh, EndorserSig: sign(bh)})
 		// commit claiming endorsements it does not hold (junk bytes for every other peer)
 		es := map[uint32][]byte{}
 		for i := uint32(1); i <= 4; i++ {
@@ -128,12 +128,12 @@ func c34newWorld(byz uint32) *c34world {
 				es[i] = junk(byte(i))
 			}
 		}
-		add("X:commit("+tag+",E=junk all)", "junk-endorser-sigs", &blockCommitMsg{Committer: f, BlockProposer: pr, BlockNum: c34H, CommitBlockHash: bh, EndorsersSig: es, CommitterSig: sign(bh)})
-		add("X:commit("+tag+",E=none)", "", &blockCommitMsg{Committer: f, BlockProposer: pr, BlockNum: c34H, CommitBlockHash: bh, EndorsersSig: map[uint32][]byte{}, CommitterSig: sign(bh)})
+		add("X:commit("+tag+",E=junk all)", "commit-with-junk-endorser-sigs", &blockCommitMsg{Committer: f, BlockProposer: pr, BlockNum: c34H, CommitBlockHash: bh, EndorsersSig: es, CommitterSig: sign(bh)})
+		add("X:commit("+tag+",E=none)", "commit", &blockCommitMsg{Committer: f, BlockProposer: pr, BlockNum: c34H, CommitBlockHash: bh, EndorsersSig: map[uint32][]byte{}, CommitterSig: sign(bh)})
 		// well-formed endorsement / commit for the EMPTY variant of the proposal
 		eh := p.Block.EmptyBlock.Hash()
-		add("X:endorseEmpty("+tag+")", "", &blockEndorseMsg{Endorser: f, EndorsedProposer: pr, BlockNum: c34H, EndorsedBlockHash: eh, EndorseForEmpty: true, EndorserSig: sign(eh)})
-		add("X:commitEmpty("+tag+",E=none)", "", &blockCommitMsg{Committer: f, BlockProposer: pr, BlockNum: c34H, CommitBlockHash: eh, CommitForEmpty: true, EndorsersSig: map[uint32][]byte{}, CommitterSig: sign(eh)})
+		add("X:endorseEmpty("+tag+")", "endorse-empty", &blockEndorseMsg{Endorser: f, EndorsedProposer: pr, BlockNum: c34H, EndorsedBlockHash: eh, EndorseForEmpty: true, EndorserSig: sign(eh)})
+		add("X:commitEmpty("+tag+",E=none)", "commit-empty", &blockCommitMsg{Committer: f, BlockProposer: pr, BlockNum: c34H, CommitBlockHash: eh, CommitForEmpty: true, EndorsersSig: map[uint32][]byte{}, CommitterSig: sign(eh)})
 	}
 	return w
 }
@@ -271,6 +271,7 @@ type c34sys struct {
 	done     map[string]bool         // deliveries / timeouts / byzantine sends already used
 	byzUsed  int
 	diverged int
+	noops    int
 	hist     []string
 	kinds    map[string]bool
 }
@@ -339,9 +340,28 @@ func (s *c34sys) events(byzBudget int) []string {
 	return ev
 }
 
+// apply executes one event.  A timeout or a Byzantine message that leaves every honest node and the set of
+// in-flight messages exactly as they were is not counted against the "once each" / budget bookkeeping of the
+// harness: the system is in the same state, and not spending the allowance only permits more behaviours later
+// (the successor then coincides with its parent and is deduplicated).
 func (s *c34sys) apply(ev string) {
 	s.hist = append(s.hist, ev)
 	s.done[ev] = true
+	if strings.HasPrefix(ev, "T:") || strings.HasPrefix(ev, "X:") {
+		before, np, nk := s.nodeKey(), len(s.pending), len(s.kinds)
+		defer func() {
+			if len(s.pending) == np && s.nodeKey() == before {
+				delete(s.done, ev)
+				if strings.HasPrefix(ev, "X:") {
+					s.byzUsed--
+					if len(s.kinds) != nk {
+						delete(s.kinds, s.w.bkind[ev[:strings.LastIndex(ev, "→")]])
+					}
+				}
+				s.noops++
+			}
+		}()
+	}
 	switch {
 	case strings.HasPrefix(ev, "P:"):
 		var p uint32
@@ -386,6 +406,23 @@ func (s *c34sys) apply(ev string) {
 }
 
 func (s *c34sys) key() string {
+	var ds []string
+	for k := range s.pending {
+		ds = append(ds, k)
+	}
+	sort.Strings(ds)
+	var dn []string
+	for k := range s.done {
+		if !strings.HasPrefix(k, "D:") {
+			dn = append(dn, k)
+		}
+	}
+	sort.Strings(dn)
+	return s.nodeKey() + "#" + strings.Join(ds, ";") + "#" + strings.Join(dn, ";")
+}
+
+// nodeKey: the canonical projection of the honest nodes alone (block pools, marks, decisions)
+func (s *c34sys) nodeKey() string {
 	var parts []string
 	for _, i := range s.w.honest {
 		n := s.nodes[i]
@@ -418,21 +455,20 @@ func (s *c34sys) key() string {
 				flag(c.EndorsedProposal) + flag(c.EndorsedEmptyProposal) + flag(c.CommittedProposal) + flag(c.CommittedEmptyProposal) + fmt.Sprint(c.commitDone)
 		}
 		p += "|sealed=" + strings.Join(n.sealed, ",")
+		// messages held in the node's message pool (they are consulted again at timeouts and on late proposals)
+		if rd := n.srv.msgPool.rounds[c34H]; rd != nil {
+			var ms []string
+			for _, l := range rd.msgs {
+				for _, m := range l {
+					ms = append(ms, c34label(m))
+				}
+			}
+			sort.Strings(ms)
+			p += "|pool=" + strings.Join(ms, ",")
+		}
 		parts = append(parts, p)
 	}
-	var ds []string
-	for k := range s.pending {
-		ds = append(ds, k)
-	}
-	sort.Strings(ds)
-	var dn []string
-	for k := range s.done {
-		if !strings.HasPrefix(k, "D:") {
-			dn = append(dn, k)
-		}
-	}
-	sort.Strings(dn)
-	return strings.Join(parts, "#") + "#" + strings.Join(ds, ";") + "#" + strings.Join(dn, ";")
+	return strings.Join(parts, "#")
 }
 
 func (s *c34sys) check() (string, string) {
@@ -449,17 +485,26 @@ func (s *c34sys) check() (string, string) {
 				sort.Strings(ks)
 				cls := "no-byzantine-message-needed"
 				if s.byzUsed > 0 {
-					cls = "byzantine:" + strings.Join(ks, "+")
-					if len(ks) == 0 {
-						cls = "byzantine:well-formed-messages-only"
+					cls = "byzantine-sends:" + strings.Join(ks, "+")
+				}
+				// how the two decisions relate: "<hash>/p<proposer>/empty=<bool>"
+				fa, fb := strings.Split(first, "/"), strings.Split(d, "/")
+				rel := "blocks-of-different-proposers"
+				if fa[1] == fb[1] {
+					rel = "two-proposals-of-one-proposer"
+					if fa[2] != fb[2] {
+						rel = "empty-and-full-block-of-one-proposer"
 					}
 				}
+				cls = rel + ":" + cls
 				return "two-blocks-sealed:" + cls, fmt.Sprintf("honest node %d decides to seal %s and honest node %d decides to seal %s at height %d (Byzantine peer %d)", who, first, i, d, c34H, s.w.byz)
 			}
 		}
 	}
 	return "", ""
 }
+
+const c34QuickCap = 400000
 
 type c34case struct {
 	Byz     uint32   `json:"byzantine_peer"`
@@ -472,15 +517,22 @@ func TestVerif_C34(t *testing.T) {
 	defer r.Finish()
 	r.Rule("N=4, C=1, one height, three honest nodes = real vbft.Server objects without ledger/network, one Byzantine peer (each of the roles non-proposer endorser/committer, leader, second proposer in turn); events: an honest proposer publishes its proposal, any in-flight message is delivered to any honest node (reordering; loss = never delivered), any of the propose / endorse / empty-endorse / commit timeouts fires at any honest node (once each), the Byzantine peer sends any message of its menu (conflicting proposal, endorse, commit with junk or no endorser signatures — all passing the real Verify under its own key) to any honest node, within a budget; BFS with replay on fresh servers, deduplicated on the canonical projection of every node's block pool, its endorsed/committed/sealed marks, the in-flight messages and the used timeouts; invariant: all seal decisions of honest nodes are equal")
 	r.Assume("proposal validation against the ledger (prev exec root, VRF, txs) and the final ledger write are outside the harness: proposals enter where the node's message loop takes them, a decision to seal is the SealBlock action")
-	depth := r.Pick(6, 8)
-	budget := r.Pick(2, 3)
+	depth := r.Pick(5, 6)
+	budget := 2
 	var rc c34case
 	replay := r.ReplayCase(&rc) && rc.Byz != 0
 	for bi, byz := range []uint32{4, 1, 2} {
 		if replay && rc.Byz != byz {
 			continue
 		}
-		if !replay && !r.Mine(bi) {
+		// shards: one Byzantine role each; with 3k shards every role is split k ways on the first event
+		nsub, sub := 1, 0
+		if r.R.NShards%3 == 0 && r.R.NShards > 3 {
+			nsub, sub = r.R.NShards/3, r.R.Shard/3
+			if !replay && r.R.Shard%3 != bi {
+				continue
+			}
+		} else if !replay && !r.Mine(bi) {
 			continue
 		}
 		w := c34newWorld(byz)
@@ -490,7 +542,7 @@ func TestVerif_C34(t *testing.T) {
 				s.apply(ev)
 			}
 			if k, d := s.check(); k != "" {
-				r.Violation(k, d, rc)
+				r.Violation(fmt.Sprintf("%s:minimal-history-of-%d-events", k, len(rc.History)), d, rc)
 			}
 			continue
 		}
@@ -516,6 +568,11 @@ func TestVerif_C34(t *testing.T) {
 					r.Add("replays_in_which_a_node_behaved_differently(map iteration)", 1)
 				}
 				k, d := s.check()
+				if k != "" {
+					// the class of a violation: relation of the two decisions, kinds of Byzantine messages used, and the
+					// length of the (minimal) history -- the same class reached by a shorter history is a different finding
+					k = fmt.Sprintf("%s:minimal-history-of-%d-events", k, len(hist))
+				}
 				if k == "" || seenKey[k] {
 					return "", ""
 				}
@@ -544,7 +601,8 @@ func TestVerif_C34(t *testing.T) {
 				seenKey[k] = true
 				return k, d
 			},
-			MaxDepth: depth, MaxStates: r.Pick(40000, 2000000),
+			MaxDepth: depth, MaxStates: r.Pick(c34QuickCap, 2000000),
+			MineFirst: func(ei int) bool { return ei%nsub == sub },
 		}
 		st := xs.Run(r, cfg)
 		r.Eval(st.Transitions)
@@ -554,5 +612,5 @@ func TestVerif_C34(t *testing.T) {
 			r.Sample(map[string]interface{}{"byzantine_peer": byz, "byzantine_menu": w.border})
 		}
 	}
-	r.Bound(fmt.Sprintf("depth<=%d events, Byzantine budget %d messages, state cap %d per Byzantine role", depth, budget, r.Pick(40000, 2000000)))
+	r.Bound(fmt.Sprintf("depth<=%d events, Byzantine budget %d messages, state cap %d per shard (Byzantine role x first-event slice)", depth, budget, r.Pick(c34QuickCap, 2000000)))
 }
